@@ -562,6 +562,9 @@ def drift_of(events, ev):
         ev["model_drift_first"] = first
 
 
+_VERDICT = None      # set by run(): lets harness() report what is no C09 verdict of the trace spec
+
+
 def harness(bd, out, **kw):
     cmd = [os.path.join(bd, "cache_replay"), "--out", out, "--quiet"]
     for k, v in kw.items():
@@ -570,6 +573,18 @@ def harness(bd, out, **kw):
         else:
             cmd += [f"--{k}", str(v)]
     p = vp.run_subject(cmd, timeout=1500)     # normal duration: 40-100 s
+    # a commit that was let through the gate and whose after-commit notification did not arrive within the
+    # harness watchdog (60 s): the caches never learn that the batch is durable.  The harness gives up after
+    # two of them; on the unchanged tree there is none.
+    if _VERDICT is not None and os.path.exists(out):
+        evs = vp.read_ndjson(out)
+        dead = [i for i, e in enumerate(evs) if e.get("e") == "dead" and "watchdog" in str(e.get("why", ""))]
+        for i in dead[:1]:
+            start = max((j for j in range(i, -1, -1) if evs[j].get("e") == "run"), default=0)
+            _VERDICT.violation("no_progress: the after-commit notification of a commit that was let through the store's gate "
+                               f"did not arrive within the watchdog ({len(dead)} such runs; mode {kw.get('mode')})",
+                               {"property": PID, "kind": "no_progress", "origin": f"cache_replay --mode {kw.get('mode')}",
+                                "events": evs[start:i + 1][-120:], "args": {k: str(v) for k, v in kw.items()}})
     m = re.search(r"panics=(\d+)", p.stdout or "")
     return int(m.group(1)) if m else 0
 
@@ -583,6 +598,8 @@ def run(tier, seed):
     wd = vp.clean_workdir(PID)
     bd = vp.build()
     verdict = vp.Verdict(PID)
+    global _VERDICT
+    _VERDICT = verdict
     ev = new_ev()
     phase = {}
     tp0 = time.time()
